@@ -70,6 +70,10 @@ func Loop(engineName string, exec Exec) int {
 		if spec.Switches == nil {
 			spec.Switches = []engine.Switch{}
 		}
+		if spec.Auto != run.AutoYield {
+			fmt.Fprintf(os.Stderr, "spec.auto=%v but this worker has autoyield=%v\n", spec.Auto, run.AutoYield)
+			return 2
+		}
 		emit(exec(&spec))
 		return 0
 	}
@@ -77,6 +81,7 @@ func Loop(engineName string, exec Exec) int {
 	for i := 0; i < *FlagCount; i++ {
 		seed := *FlagFrom + uint64(i)
 		spec := run.Generate(*FlagProp, seed, *FlagTier)
+		spec.Auto = run.AutoYield
 		if *FlagGenspec {
 			os.Stdout.Write(run.MarshalSpec(spec))
 			os.Stdout.WriteString("\n")
